@@ -1,0 +1,52 @@
+//! Read-only snapshots of MAC and channel-plan state for external runtime monitors.
+//! Compiled only with the `verif-hooks` feature; nothing here changes behaviour.
+
+/// One channel of a dynamic channel plan.
+#[derive(Debug, Clone, Copy, PartialEq, Eq)]
+pub struct ChannelSnapshot {
+    pub ul_frequency: u32,
+    pub rx1_frequency: u32,
+    pub dr_min: u8,
+    pub dr_max: u8,
+}
+
+/// Join-channel selection state of a fixed channel plan.
+#[derive(Debug, Clone, Copy, PartialEq, Eq, Default)]
+pub struct JoinBiasSnapshot {
+    pub preferred_subband: Option<u8>,
+    pub max_retries: usize,
+    pub num_retries: usize,
+    pub previous_channel: u8,
+    pub available: [u8; 9],
+    pub available_previous: Option<u8>,
+}
+
+/// Channel-plan state of a region.
+#[derive(Debug, Clone, Copy, PartialEq, Eq)]
+pub struct RegionSnapshot {
+    pub fixed_plan: bool,
+    pub channel_mask: [u8; 9],
+    /// Dynamic plans: the 16 channel slots. Fixed plans: all `None`.
+    pub channels: [Option<ChannelSnapshot>; 16],
+    /// Fixed plans only.
+    pub join_bias: JoinBiasSnapshot,
+}
+
+/// MAC configuration and channel plan of a device.
+#[derive(Debug, Clone, Copy, PartialEq, Eq)]
+pub struct Snapshot {
+    pub joined: bool,
+    pub data_rate: u8,
+    pub tx_power: Option<u8>,
+    pub rx1_delay: u32,
+    pub rx1_dr_offset: u8,
+    pub rx2_data_rate: Option<u8>,
+    pub rx2_frequency: Option<u32>,
+    pub adr_enabled: bool,
+    pub region: RegionSnapshot,
+}
+
+/// Public wrapper of the private downlink counter reconstruction.
+pub fn next_fcnt_down(last: Option<u32>, wire: u16) -> Option<u32> {
+    crate::mac::verif_next_fcnt_down(last, wire)
+}
